@@ -36,7 +36,9 @@ inductive Body where
 deriving Inhabited
 
 /-- ASCII case folding as used for key matching (names in play are ASCII). -/
-def lower (s : String) : String := s.map Char.toLower
+def lower (s : String) : String := String.ofList (s.toList.map Char.toLower)
+-- (written over the character list rather than with `String.map` so that the kernel can
+-- evaluate it on literals: `decide` goes through)
 
 /-- Does key `k` select the field tagged `tag`? -/
 def keyMatches (tag k : String) : Bool := k == tag || lower k == lower tag
